@@ -326,7 +326,10 @@ func (s *Sched) sendReady(t *thread, ch uintptr, rch reflect.Value) bool {
 	if ch == 0 {
 		return false
 	}
-	return s.closed[ch] || rch.Len() < rch.Cap() || s.findReceiver(ch, t) != nil
+	// a parked receiver makes a send ready only through a rendezvous (empty buffer);
+	// on a full buffered channel the receiver drains the buffer first (it is enabled
+	// through Len>0) and the sender becomes enabled then.
+	return s.closed[ch] || rch.Len() < rch.Cap() || rch.Len() == 0 && s.findReceiver(ch, t) != nil
 }
 
 func (s *Sched) enabled(t *thread) bool {
